@@ -62,14 +62,16 @@ Theorem C20_rol_ror : forall t x i, t = u32 \/ t = u64 -> 0 <= x < 2 ^ width t -
 Proof. exact rol_ror_final. Qed.
 Print Assumptions C20_rol_ror.
 
-(** div_ceil and round_up (repaired code, fixes/C20/02, 03): ceiling quotient for all n >= 0, k > 0 of the type --
-    no overflow near the top of the range; round_up whenever the rounded value is representable in the result type. *)
+(** div_ceil and round_up (repaired code, fixes/C20/02, 03): ceiling quotient for every n of the type -- negative n of
+    the signed instantiations included, although the header documents positive operands only -- and every k > 0
+    (k = 0 divides by zero, k < 0 is excluded by the documented precondition); no overflow near the top of the range;
+    round_up whenever the rounded value is representable in the result type.  ceil_quot n k = n quot k + [n rem k > 0]. *)
 Theorem C20_div_ceil_round_up : forall t n k, supported t ->
-  inrange t n = true -> inrange t k = true -> 0 <= n -> 0 < k ->
+  inrange t n = true -> inrange t k = true -> 0 < k ->
   n <= div_ceil t n k * k < n + k /\
-  (inrange (prom t) (ceil_div n k * k) = true ->
+  (inrange (prom t) (ceil_quot n k * k) = true ->
      n <= round_up t n k < n + k /\ (k | round_up t n k)).
-Proof. exact div_ceil_round_up_final. Qed.
+Proof. exact div_ceil_round_up_any_sign_final. Qed.
 Print Assumptions C20_div_ceil_round_up.
 
 Theorem C20_abs_diff_sgn : forall t a b, supported t ->
@@ -128,10 +130,13 @@ Theorem C20_popcount_range : forall l, Forall byte l ->
 Proof. exact popcount_range_correct. Qed.
 Print Assumptions C20_popcount_range.
 
-(** Aggregate (exact arithmetic): after ANY history of add / operator+ / operator+= / reset over any number of
-    Aggregate variables, every variable has the same count, mean, nvar (hence variance), min and max as one Aggregate
-    fed with all the values it stands for -- empty operands included. *)
-Theorem C20_aggregate_combine_eq_feed_all : forall (hi lo : Q) n ops i,
+(** Aggregate (exact arithmetic): after ANY history of add / operator+ / operator+= / reset / construction from
+    serialised fields over any number of Aggregate variables, every variable has the same count, mean, nvar (hence
+    variance), min and max as one Aggregate fed with all the values it stands for -- empty operands included, counts of
+    any size (the product of the counts is taken in Q, as the repaired code multiplies them as doubles; the sum of the
+    counts is assumed not to wrap, i.e. fewer than 2^64 values).  [op_ok]: an Aggregate built by the initializing
+    constructor [OConst i c v] stands for c >= 1 copies of a value v within the limits [lo, hi] of the element type. *)
+Theorem C20_aggregate_combine_eq_feed_all : forall (hi lo : Q) n ops i, Forall (op_ok hi lo) ops ->
   agg_eq (nth i (run hi lo n ops) (empty hi lo)) (feed (nth i (ghost n ops) []) (empty hi lo)).
 Proof. exact combine_eq_feed_all. Qed.
 Print Assumptions C20_aggregate_combine_eq_feed_all.
@@ -171,6 +176,8 @@ Theorem C20_aggregate_shipped_refuted :
    ~ nvar (plus_assign_shipped a b) == nvar (feed [1; 2; 3; 10; 20] e) /\
    nvar (plus_assign a b) == nvar (feed [1; 2; 3; 10; 20] e)) /\
   (let e := empty 1000 (-1000) in
-   combine_variance_shipped e e = None /\ combine_variance e e == 0).
-Proof. exact (conj plus_assign_shipped_refuted combine_variance_shipped_refuted). Qed.
+   combine_variance_shipped e e = None /\ combine_variance e e == 0) /\
+  (let a := mkAgg (2 ^ 32) 0 0 0 0 in let b := mkAgg (2 ^ 32) 1 0 1 1 in
+   combine_variance_wrapping a b == 0 /\ combine_variance a b == (2 ^ 31)%Z # 1).
+Proof. exact (conj plus_assign_shipped_refuted (conj combine_variance_shipped_refuted combine_variance_wrapping_refuted)). Qed.
 Print Assumptions C20_aggregate_shipped_refuted.
